@@ -20,7 +20,7 @@ theorem inv_afterLink (s : FState) (P : List Id) (b : Blk) (c : Option (List Ent
     intro x hx hxe
     have := isPath_present _ _ _ hI.path x hx
     rw [hxe, hf] at this; cases this
-  refine ⟨hI.noInit, hI.libNe, wf_append _ _ hI.wf hb hf, heights_append _ _ hI.heights hb hB,
+  refine ⟨hI.libNe, wf_append _ _ hI.wf hb hf, heights_append _ _ hI.heights hb hB,
     isPath_append_entry _ _ _ _ hI.path hf, hI.libNotin, ?_, hI.topSome, ?_, hc, hI.initOk⟩
   · intro x hx
     show isSent (appendBlk s.db b) x = true
@@ -83,7 +83,8 @@ def DbShape (cfg : Config) (s : FState) (b : Blk) (s' : FState) : Prop :=
     pending chain of the new state; and the invariant holds again. -/
 theorem processBlock_step (cfg : Config) (hnew : cfg.matches .new = true) (hundo : cfg.matches .undo = true)
     (hirr : cfg.matches .irreversible = true) (s : FState) (P : List Id) (b : Blk)
-    (hI : Inv s P) (hcl : SentClosed s.db) (hb : WFin b) (hB : HB s.db b) (hL : LibDeclOK s.db b) :
+    (hI : Inv s P) (hni : s.includeInit = false ∨ s.lastSent.isSome = true ∨ b.id ≠ s.db.libRef.id)
+    (hcl : SentClosed s.db) (hb : WFin b) (hB : HB s.db b) (hL : LibDeclOK s.db b) :
     ∃ P', (⟨s.db.libRef.id, P⟩ : CS).run (processBlock cfg s b none).2.1 =
         some ⟨(processBlock cfg s b none).1.db.libRef.id, P'⟩ ∧
       Inv (processBlock cfg s b none).1 P' ∧
@@ -94,7 +95,7 @@ theorem processBlock_step (cfg : Config) (hnew : cfg.matches .new = true) (hundo
         ∃ F', Inv2 U F' (processBlock cfg s b none).1.db) ∧
       DbShape cfg s b (processBlock cfg s b none).1 := by
   unfold processBlock
-  rcases plan_cases cfg s b hI.noInit hI.libNe with ⟨⟨r, hr⟩, hwhy⟩ | ⟨hex, _, hnotdrop, u, rd, j, hsw, hpl⟩
+  rcases plan_cases cfg s b hni hI.libNe with ⟨⟨r, hr⟩, hwhy⟩ | ⟨hex, _, hnotdrop, u, rd, j, hsw, hpl⟩
   · rw [hr]
     refine ⟨P, rfl, hI, Or.inl ⟨rfl, rfl⟩, fun U F _ hJ _ => ⟨F, hJ⟩, Or.inl ⟨rfl, ?_⟩⟩
     rcases hwhy with h | h | h | h
@@ -174,7 +175,7 @@ theorem processBlock_step (cfg : Config) (hnew : cfg.matches .new = true) (hundo
         have hsame : SameBlks s3.db a.st.db := hout.same
         -- the invariant after the deliveries, with the whole chain pending
         have hI2 : Inv a.st ((lcA ++ lcB).map (·.blk.id)) := by
-          refine ⟨hout.incl.trans hI1.noInit, by rw [hsame.1]; exact hI1.libNe, Forkable.SameBlks.wf hsame hI1.wf, Forkable.SameBlks.heights hsame hI1.heights,
+          refine ⟨by rw [hsame.1]; exact hI1.libNe, Forkable.SameBlks.wf hsame hI1.wf, Forkable.SameBlks.heights hsame hI1.heights,
             ?_, ?_, ?_, ?_, ?_, ?_, ?_⟩
           · rw [hsame.1, hsame.isPath, hs3lib, hs3db, ← hlc]; exact hp
           · rw [hsame.1, hs3lib, ← hlc]; exact hn
